@@ -253,3 +253,53 @@ def inlined_function(p: Program, fn: FunctionInfo, depth: int = 2) -> tuple[ast.
             break
         done += inl.inlined
     return node, done
+
+
+# ------------------------------------------------------------------------------------------------ constant loops
+class _ConstSubst(ast.NodeTransformer):
+    def __init__(self, name: str, value: ast.expr):
+        self.name = name
+        self.value = value
+
+    def visit_Name(self, node: ast.Name) -> Any:
+        if node.id == self.name and isinstance(node.ctx, ast.Load):
+            return ast.copy_location(copy.deepcopy(self.value), node)
+        return node
+
+
+class _Unroller(ast.NodeTransformer):
+    """`for k in ("a", "b"): body` -> body[k:="a"]; body[k:="b"] (loops over a short literal sequence of constants whose
+    variable is only read, without break/continue/else): the analysis then sees each iteration as straight-line code."""
+
+    LIMIT = 16
+
+    def __init__(self) -> None:
+        self.count = 0
+
+    def visit_For(self, node: ast.For) -> Any:
+        self.generic_visit(node)
+        it = node.iter
+        if not (isinstance(node.target, ast.Name) and isinstance(it, (ast.Tuple, ast.List)) and 0 < len(it.elts) <= self.LIMIT
+                and all(isinstance(e, ast.Constant) for e in it.elts) and not node.orelse):
+            return node
+        name = node.target.id
+        for x in node.body:
+            for y in ast.walk(x):
+                if isinstance(y, (ast.Break, ast.Continue, ast.FunctionDef, ast.Lambda, ast.ListComp, ast.SetComp, ast.DictComp, ast.GeneratorExp)):
+                    return node
+                if isinstance(y, ast.Name) and y.id == name and not isinstance(y.ctx, ast.Load):
+                    return node
+        out: list[ast.stmt] = []
+        for e in it.elts:
+            for st in node.body:
+                out.append(_ConstSubst(name, e).visit(copy.deepcopy(st)))
+        self.count += 1
+        return out
+
+
+def unrolled(node: ast.FunctionDef) -> ast.FunctionDef:
+    u = _Unroller()
+    new = u.visit(node)
+    if u.count:
+        ast.fix_missing_locations(new)
+    return new
